@@ -28,6 +28,7 @@ inductive Event where
   | created | call | returnObject | exceptionObject
   | returnDocument | exceptionDocument | returnString | exceptionString | closed
   | beforeDeserialize | afterDeserialize | beforeSerialize | afterSerialize
+  | serialize      -- HttpRpc as output protocol fires `serialize` instead of before/after_serialize
   | wsgiCall | wsgiReturn | wsgiException | wsgiClose
   | other   -- any name the modelled pipeline never fires (method_accept_document, method_return_push, ...)
   deriving DecidableEq, Repr
@@ -48,7 +49,15 @@ inductive Transport where
 
 /-- output protocol families -/
 inductive OutProto where
-  | xml | soap11 | soap12 | json | yaml | msgpack | msgpackRpc
+  | xml | soap11 | soap12 | json | yaml | msgpack | msgpackRpc | httpRpc
+  deriving DecidableEq, Repr
+
+/-- the shape of the method's result -/
+inductive Shape where
+  | void        -- the method declares no return value
+  | none        -- declares one, returns None
+  | value       -- returns a value
+  | generator   -- declares an iterable, returns a generator
   deriving DecidableEq, Repr
 
 /-- the pipeline stage at which the single injected failure happens -/
@@ -73,6 +82,7 @@ structure Inj where
 structure Cfg where
   outp : OutProto
   transport : Transport
+  shape : Shape
   deriving DecidableEq, Repr
 
 /-- the ways `Application.process_request` can go -/
@@ -99,9 +109,9 @@ structure Facts14 where
   ctxClose : List Event
   /-- Application.process_request -/
   proc : ProcCase → Meas
-  /-- ServerBase.finalize_context, ctx.out_error is None / is set -/
-  finOk : List Event
-  finErr : List Event
+  /-- ServerBase.finalize_context: `fin fault none`, fault = ctx.out_error is set, none = the output
+      protocol's create_out_string leaves ctx.out_string None -/
+  fin : Bool → Bool → List Event
   /-- ServerBase.generate_contexts when the in-protocol raises a Fault / another exception -/
   genCtx : ExcKind → Meas
   /-- ServerBase.get_in_object when deserialize raises a Fault / another exception -/
@@ -109,8 +119,14 @@ structure Facts14 where
   /-- WsgiApplication.handle_rpc when get_out_string raises: what is fired before the error response
       is built -/
   wsgiSerFail : Meas
-  /-- does the output protocol fire after_serialize when it serialises a fault -/
-  afterSerOnFault : OutProto → Bool
+  /-- the output protocol's own events while it serialises a result of the given shape / a fault /
+      before a failing serialize raises -/
+  serOk : OutProto → Shape → List Event
+  serErr : OutProto → List Event
+  serPartial : OutProto → List Event
+  /-- does create_out_string leave ctx.out_string None for a result of this shape / for a fault -/
+  leavesNone : OutProto → Shape → Bool
+  leavesNoneFault : OutProto → Bool
 
 /-- who fires: decides which managers hear it -/
 inductive Src where
@@ -153,59 +169,99 @@ def ProcCase.faulted : ProcCase → Bool
   | .ok => false
   | _ => true
 
+/-- places where only the protocols' own managers are fired; filled in per protocol by `fill` -/
+inductive Slot where
+  | deserBefore | deserAfter | deserPartial | serOk | serErr | serPartial
+  deriving DecidableEq, Repr
+
+/-- a step of the skeleton of a call: a method-context / transport / user step, or a protocol slot -/
+inductive SStep where
+  | step (s : Step)
+  | slot (sl : Slot)
+  deriving DecidableEq, Repr
+
+structure Skel where
+  steps : List SStep
+  escaped : Bool
+  deriving DecidableEq, Repr
+
+def sk (l : List Step) : List SStep := l.map SStep.step
+
 /-- ctx.close(), then wsgi_close (WsgiApplication.__finalize) -/
 def closeSteps (F : Facts14) (t : Transport) : List Step :=
   fires (.ctx false) F.ctxClose ++ onWsgi t [.wsgiClose]
 
 /-- the fault response: get_out_string (serialize the fault, finalize_context), wsgi_exception, close.
     (ServerBase: the transport calls get_out_string and close; WSGI: handle_error.) -/
-def errTail (F : Facts14) (afterSer : Bool) (t : Transport) (hasDesc : Bool) : List Step :=
-  fires .outProt ([.beforeSerialize] ++ (if afterSer then [.afterSerialize] else []))
-    ++ fires (.ctx hasDesc) F.finErr ++ onWsgi t [.wsgiException] ++ closeSteps F t
+def errTail (F : Facts14) (noneErr : Bool) (t : Transport) (hasDesc : Bool) : List SStep :=
+  [.slot .serErr] ++ sk (fires (.ctx hasDesc) (F.fin true noneErr) ++ onWsgi t [.wsgiException] ++ closeSteps F t)
 
 /-- MethodContext(...), then wsgi_call -/
 def startSteps (F : Facts14) (t : Transport) : List Step :=
   fires (.ctx false) F.ctxInit ++ onWsgi t [.wsgiCall]
 
-/-- the whole call; `afterSer` = the output protocol fires after_serialize for a fault -/
-def runCore (F : Facts14) (afterSer : Bool) (t : Transport) (inj : Inj) (co ro : Option ExcKind) : Run :=
-  let start := startSteps F t
-  match inj.stage with
+/-- The whole call, protocol events left as slots. `noneOk` / `noneErr`: the output protocol leaves
+    ctx.out_string None for this method's result / for a fault. -/
+def skeleton (F : Facts14) (noneOk noneErr : Bool) (t : Transport) (stage : Stage) (kind : ExcKind)
+    (co ro : Option ExcKind) : Skel :=
+  let start := sk (startSteps F t)
+  match stage with
   | .createInDoc | .decompose | .genContexts =>
     -- ServerBase.generate_contexts: no descriptor yet
-    let m := F.genCtx inj.kind
-    if m.escapes then ⟨start ++ symSteps false m.evs, true⟩
-    else ⟨start ++ symSteps false m.evs ++ errTail F afterSer t false, false⟩
+    let m := F.genCtx kind
+    if m.escapes then ⟨start ++ sk (symSteps false m.evs), true⟩
+    else ⟨start ++ sk (symSteps false m.evs) ++ errTail F noneErr t false, false⟩
   | .deserialize =>
     -- ServerBase.get_in_object
-    let pe := if inj.inner then fires .inProt [.beforeDeserialize] else []
-    let m := F.getIn inj.kind
-    if m.escapes then ⟨start ++ pe ++ symSteps true m.evs, true⟩
-    else ⟨start ++ pe ++ symSteps true m.evs ++ errTail F afterSer t true, false⟩
+    let m := F.getIn kind
+    if m.escapes then ⟨start ++ [.slot .deserPartial] ++ sk (symSteps true m.evs), true⟩
+    else ⟨start ++ [.slot .deserPartial] ++ sk (symSteps true m.evs) ++ errTail F noneErr t true, false⟩
   | .none | .dispatch | .user | .serialize =>
-    let deser := fires .inProt [.beforeDeserialize, .afterDeserialize]
-    let pc := procCase inj co ro
-    let proc := symSteps true (F.proc pc).evs
+    let deser : List SStep := [.slot .deserBefore, .slot .deserAfter]
+    let pc := procCase ⟨stage, kind, false⟩ co ro
+    let proc := sk (symSteps true (F.proc pc).evs)
     if (F.proc pc).escapes then
       -- process_request lets the exception through: nothing in the transports catches it
       ⟨start ++ deser ++ proc, true⟩
     else if pc.faulted then
       -- get_out_object leaves ctx.out_error set
-      ⟨start ++ deser ++ proc ++ errTail F afterSer t true, false⟩
-    else if inj.stage = .serialize then
-      let pe := if inj.inner then fires .outProt [.beforeSerialize] else []
+      ⟨start ++ deser ++ proc ++ errTail F noneErr t true, false⟩
+    else if stage = .serialize then
       match t with
-      | .serverBase => ⟨start ++ deser ++ proc ++ pe, true⟩   -- get_out_string raises to the caller
+      | .serverBase => ⟨start ++ deser ++ proc ++ [.slot .serPartial], true⟩   -- get_out_string raises to the caller
       | .wsgi =>
-        if F.wsgiSerFail.escapes then ⟨start ++ deser ++ proc ++ pe ++ symSteps true F.wsgiSerFail.evs, true⟩
-        else ⟨start ++ deser ++ proc ++ pe ++ symSteps true F.wsgiSerFail.evs ++ errTail F afterSer t true, false⟩
+        if F.wsgiSerFail.escapes then
+          ⟨start ++ deser ++ proc ++ [.slot .serPartial] ++ sk (symSteps true F.wsgiSerFail.evs), true⟩
+        else
+          ⟨start ++ deser ++ proc ++ [.slot .serPartial] ++ sk (symSteps true F.wsgiSerFail.evs)
+            ++ errTail F noneErr t true, false⟩
     else
-      ⟨start ++ deser ++ proc ++ fires .outProt [.beforeSerialize, .afterSerialize]
-        ++ fires (.ctx true) F.finOk ++ onWsgi t [.wsgiReturn] ++ closeSteps F t, false⟩
+      ⟨start ++ deser ++ proc ++ [.slot .serOk]
+        ++ sk (fires (.ctx true) (F.fin false noneOk) ++ onWsgi t [.wsgiReturn] ++ closeSteps F t), false⟩
 
-/-- the whole call for an output protocol and a transport -/
+/-- the protocols' own events at each slot (`inner`: the failing protocol function had already fired
+    its first event) -/
+def fill (F : Facts14) (c : Cfg) (inner : Bool) : SStep → List Step
+  | .step s => [s]
+  | .slot .deserBefore => fires .inProt [.beforeDeserialize]
+  | .slot .deserAfter => fires .inProt [.afterDeserialize]
+  | .slot .deserPartial => if inner then fires .inProt [.beforeDeserialize] else []
+  | .slot .serOk => fires .outProt (F.serOk c.outp c.shape)
+  | .slot .serErr => fires .outProt (F.serErr c.outp)
+  | .slot .serPartial => if inner then fires .outProt (F.serPartial c.outp) else []
+
+/-- the skeleton without its slots -/
+def unslot : List SStep → List Step
+  | [] => []
+  | .step s :: r => s :: unslot r
+  | .slot _ :: r => unslot r
+
+def skelOf (F : Facts14) (c : Cfg) (inj : Inj) (co ro : Option ExcKind) : Skel :=
+  skeleton F (F.leavesNone c.outp c.shape) (F.leavesNoneFault c.outp) c.transport inj.stage inj.kind co ro
+
+/-- the whole call for an output protocol, a transport and a result shape -/
 def run (F : Facts14) (c : Cfg) (inj : Inj) (co ro : Option ExcKind) : Run :=
-  runCore F (F.afterSerOnFault c.outp) c.transport inj co ro
+  ⟨(skelOf F c inj co ro).steps.flatMap (fill F c inj.inner), (skelOf F c inj co ro).escaped⟩
 
 /-! ### who hears a firing -/
 
